@@ -70,7 +70,16 @@ func (self *Interpreter) expression(node ast.AnalyzedExpression) (*value.Value, 
 			return nil, i
 		}
 		// call the function and return the result
-		return self.callFunc(node.Range, *base, node.Arguments.List)
+		res, i := self.callFunc(node.Range, *base, node.Arguments.List)
+		if i != nil {
+			return nil, i
+		}
+		// TODO: threads do not exist here, a `spawn` is a normal call
+		// without a thread handle, there is no result (just like in the VM)
+		if node.IsSpawn {
+			return value.NewValueNull(), nil
+		}
+		return res, nil
 	case ast.IndexExpressionKind:
 		node := node.(ast.AnalyzedIndexExpression)
 		return self.indexExpression(node)
